@@ -209,7 +209,7 @@ func guardFacts(pkgs map[string]*parsed) (map[string]bool, []string) {
 
 func emitFacts(pkgs map[string]*parsed) string {
 	var sb strings.Builder
-	sb.WriteString("import GldapModel.Gldap.Core\n/-! GENERATED by /verif/go/extract from /repo - do not edit. -/\nnamespace Gldap.Generated\n\n")
+	sb.WriteString("import GldapModel.Gldap.Core\nimport GldapModel.Generated.Consts\n/-! GENERATED by /verif/go/extract from /repo - do not edit. -/\nnamespace Gldap.Generated\n\n")
 	flags, notes := guardFacts(pkgs)
 	for _, n := range notes {
 		sb.WriteString("-- " + n + "\n")
@@ -226,6 +226,8 @@ func emitFacts(pkgs map[string]*parsed) string {
 	sb.WriteString(" }\n")
 	sb.WriteString("\n/-- NewControlBeheraPasswordPolicy range-checks the error code on both sides before narrowing -/\n")
 	sb.WriteString("def beheraErrRange : Bool := " + leanBool(beheraErrRange(pkgs)) + "\n")
+	sb.WriteString("\n/-- (*Mux).serve: route operation -> application code of the built-in refusal -/\n")
+	sb.WriteString("def refusalTable : Option (List (List UInt8 × Nat)) := " + refusalTable(pkgs) + "\n")
 	sb.WriteString(emitRuntimeFacts(pkgs))
 	sb.WriteString("\nend Gldap.Generated\n")
 	return sb.String()
@@ -259,4 +261,71 @@ func beheraErrRange(pkgs map[string]*parsed) bool {
 		return true
 	})
 	return upper && lower
+}
+
+// refusalTable extracts, from (*Mux).serve's built-in "no matching handler" answer, the table
+// route operation -> response application code, when the answer's application code is
+// computed from the request's route operation by a helper with a switch. Emits Lean source.
+func refusalTable(pkgs map[string]*parsed) string {
+	g := pkgs["gldap"]
+	serve := findFunc(g, "Mux.serve")
+	if serve == nil {
+		return "none"
+	}
+	helper := ""
+	ast.Inspect(serve.Body, func(n ast.Node) bool {
+		call, ok := n.(*ast.CallExpr)
+		if !ok {
+			return true
+		}
+		if sel, ok := call.Fun.(*ast.SelectorExpr); !ok || sel.Sel.Name != "NewResponse" {
+			return true
+		}
+		for _, a := range call.Args {
+			ac, ok := a.(*ast.CallExpr)
+			if !ok {
+				continue
+			}
+			if id, ok := ac.Fun.(*ast.Ident); ok && id.Name == "WithApplicationCode" && len(ac.Args) == 1 {
+				if hc, ok := ac.Args[0].(*ast.CallExpr); ok && len(hc.Args) == 1 && exprText(hc.Args[0]) == "req.routeOp" {
+					if hid, ok := hc.Fun.(*ast.Ident); ok {
+						helper = hid.Name
+					}
+				}
+			}
+		}
+		return true
+	})
+	if helper == "" {
+		return "none"
+	}
+	fn := findFunc(g, helper)
+	if fn == nil {
+		return "none"
+	}
+	var pairs []string
+	ast.Inspect(fn.Body, func(n ast.Node) bool {
+		cc, ok := n.(*ast.CaseClause)
+		if !ok || len(cc.List) == 0 {
+			return true
+		}
+		ret := ""
+		for _, s := range cc.Body {
+			if rs, ok := s.(*ast.ReturnStmt); ok && len(rs.Results) == 1 {
+				if id, ok := rs.Results[0].(*ast.Ident); ok {
+					ret = id.Name
+				}
+			}
+		}
+		if ret == "" {
+			return true
+		}
+		for _, e := range cc.List {
+			if id, ok := e.(*ast.Ident); ok {
+				pairs = append(pairs, fmt.Sprintf("(%s, %s)", id.Name, ret))
+			}
+		}
+		return true
+	})
+	return "some [" + strings.Join(pairs, ", ") + "]"
 }
